@@ -676,7 +676,11 @@ func (s *UtxoStore) ScriptAddressBalance(tx mwdb.ReadTransaction, scripts map[st
 	nsUnspent := tx.FetchBucket(s.bucketMeta.nsUnspent)
 	nsCredits := tx.FetchBucket(s.bucketMeta.nsCredits)
 
-	iter := nsUnspent.NewIterator(mwdb.BytesPrefix([]byte(s.ksmgr.CurrentKeystore().Name())))
+	am := s.ksmgr.CurrentKeystore()
+	if am == nil {
+		return nil, keystore.ErrCurrentKeystoreNotFound
+	}
+	iter := nsUnspent.NewIterator(mwdb.BytesPrefix([]byte(am.Name())))
 	defer iter.Release()
 
 	cred := &credit{
@@ -782,7 +786,11 @@ func (s *UtxoStore) ScriptAddressUnspents(tx mwdb.ReadTransaction, scriptAddrs m
 	var op wire.OutPoint
 	var block BlockMeta
 
-	iter := nsUnspent.NewIterator(mwdb.BytesPrefix([]byte(s.ksmgr.CurrentKeystore().Name())))
+	am := s.ksmgr.CurrentKeystore()
+	if am == nil {
+		return nil, keystore.ErrCurrentKeystoreNotFound
+	}
+	iter := nsUnspent.NewIterator(mwdb.BytesPrefix([]byte(am.Name())))
 	defer iter.Release()
 
 	for iter.Next() {
